@@ -116,6 +116,62 @@ func runC19(c *Ctx) {
 		}
 		c.R.Check("G-range", "Iterator.seek|success only through limitIterator", bad == "", c.pos(f.Pos()), "seek ends in limitIterator() on every successful path")
 	}
+	// A-bounds: First/Last seek their bound with the exact-match flag that agrees with how limitIterator treats
+	// that bound (inclusive start, exclusive limit) and in the matching direction
+	c.R.Rule("A-bounds", "Iterator.First seeks the start key and Iterator.Last the limit key with exactMatch equal to the inclusiveness limitIterator gives that bound (a key equal to an inclusive bound is in range, equal to an exclusive bound is not), First towards greater keys, Last towards smaller keys")
+	if li := c.fn(treapPkg, "Iterator", "limitIterator"); li != nil {
+		inclusive := map[string]*bool{}
+		for _, i := range ssau.Ifs(li) {
+			b, ok := i.Cond.(*ssa.BinOp)
+			if !ok || !isConstInt(0)(b.Y) {
+				continue
+			}
+			cl := staticCalleeNamed(ssau.Unwrap(b.X), "bytes.Compare")
+			if cl == nil {
+				continue
+			}
+			bound := ""
+			for _, n := range []string{"startKey", "limitKey"} {
+				if ssau.IsFieldOf(ssau.Unwrap(cl.Call.Args[1]), "Iterator", n) {
+					bound = n
+				}
+			}
+			if bound == "" {
+				continue
+			}
+			// the true arm of the test invalidates the iterator; is equality (Compare == 0) on that arm?
+			eqRejected, known := cmp(b.Op, 0, 0)
+			if !known {
+				continue
+			}
+			inc := !eqRejected
+			inclusive[bound] = &inc
+		}
+		for _, m := range []struct {
+			fn, bound string
+			greater   bool
+		}{{"First", "startKey", true}, {"Last", "limitKey", false}} {
+			f := c.fn(treapPkg, "Iterator", m.fn)
+			if f == nil {
+				continue
+			}
+			inc := inclusive[m.bound]
+			var site *ssa.Call
+			for _, cl := range ssau.CallsIn(f, callPred(R{treapPkg, "Iterator", "seek"})) {
+				if call, ok := cl.(*ssa.Call); ok && ssau.IsFieldOf(ssau.Unwrap(call.Call.Args[1]), "Iterator", m.bound) {
+					site = call
+				}
+			}
+			if inc == nil || site == nil {
+				c.R.Undecided("A-bounds", "Iterator."+m.fn+"|seek of "+m.bound, c.pos(f.Pos()), "bound test in limitIterator or seek call not found")
+				continue
+			}
+			exact, ok1 := site.Call.Args[2].(*ssa.Const)
+			greater, ok2 := site.Call.Args[3].(*ssa.Const)
+			ok := ok1 && ok2 && exact.Value.String() == fmt.Sprint(*inc) && greater.Value.String() == fmt.Sprint(m.greater)
+			c.R.Check("A-bounds", "Iterator."+m.fn+"|seek flags agree with the range test", ok, c.posOf(site), fmt.Sprintf("limitIterator treats %s as inclusive=%v; %s seeks it with exactMatch=%v, greater=%v", m.bound, *inc, m.fn, site.Call.Args[2], site.Call.Args[3]))
+		}
+	}
 	nStores := 0
 	for _, f := range c.pkgFuncs(treapPkg) {
 		root := f
